@@ -178,6 +178,29 @@ pub fn check_frame_sequence(frames: Vec<(u16, u8, Vec<u8>)>) -> Vec<(&'static st
     })
 }
 
+/// "A data block longer than 255 bytes can never be placed in a frame": wire strings carrying n + 256k data bytes with
+/// a length field of n and a consistent checksum must not decode into a frame.
+pub fn check_oversized_wire(n: usize, extra: usize, newline: bool) -> Vec<(&'static str, String, String)> {
+    let total = n + extra;
+    let data: Vec<u8> = (0..total).map(|j| (j % 7) as u8).collect();
+    let sum: u32 = (n as u32 % 256) + 0x12 + 0x34 + data.iter().map(|&b| b as u32).sum::<u32>();
+    let mut fields: Vec<u8> = vec![(n % 256) as u8, 0x12, 0x34, 0x00];
+    fields.extend_from_slice(&data);
+    fields.push(((256 - (sum % 256)) % 256) as u8);
+    let mut wire = vec![b':'];
+    for f in fields {
+        wire.extend_from_slice(format!("{:02X}", f).as_bytes());
+    }
+    if newline {
+        wire.extend_from_slice(b"\r\n");
+    }
+    match catch(|| Frame::from_bytes(&wire).map(|f| f.data().len())) {
+        Err(p) => vec![("no-panic", p.class(), format!("decoding {} data bytes panicked: {}", total, p.message))],
+        Ok(Ok(len)) => vec![("data-limit", format!("frame-holds-{}-bytes", if len > 255 { ">255" } else { "<=255" }), format!("a wire string declaring {} and carrying {} data bytes decoded into a frame holding {} data bytes", n % 256, total, len))],
+        Ok(Err(_)) => vec![],
+    }
+}
+
 pub fn check_from_array() -> Vec<(&'static str, String, String)> {
     let r = catch(|| {
         let ds: [(Data<'static>, &[u8]); 5] = [
@@ -295,6 +318,14 @@ pub fn run(ctx: &Ctx) -> Report {
             rep.violation(Violation::new(clause, class, detail, json!({"kind": "try_new", "len": l}), (3u64 << 40) + k as u64));
         }
     }
+    for (k, &(n, extra)) in [(0usize, 256usize), (1, 256), (16, 256), (255, 256), (0, 512), (3, 768)].iter().enumerate() {
+        for nl in [false, true] {
+            limit_cases += 1;
+            for (clause, class, detail) in check_oversized_wire(n, extra, nl) {
+                rep.violation(Violation::new(clause, class, detail, json!({"kind": "oversized", "n": n, "extra": extra, "newline": nl}), (3u64 << 40) + 2000 + k as u64));
+            }
+        }
+    }
     limit_cases += 5;
     for (clause, class, detail) in check_from_array() {
         rep.violation(Violation::new(clause, class, detail, json!({"kind": "from_array"}), (3u64 << 40) + 1000));
@@ -347,6 +378,7 @@ pub fn replay(_ctx: &Ctx, case: &Value) -> Result<Vec<Violation>, String> {
             let frames: Vec<(u16, u8, Vec<u8>)> = case["frames"].as_array().ok_or("frames")?.iter().map(|f| (f["addr"].as_u64().unwrap() as u16, f["type"].as_u64().unwrap() as u8, unhex(f["data"].as_str().unwrap()))).collect();
             Ok(check_frame_sequence(frames).into_iter().map(|(c, k, d)| Violation::new(c, k, d, case.clone(), 0)).collect())
         }
+        Some("oversized") => Ok(check_oversized_wire(case["n"].as_u64().ok_or("n")? as usize, case["extra"].as_u64().ok_or("extra")? as usize, case["newline"].as_bool().unwrap_or(false)).into_iter().map(|(c, k, d)| Violation::new(c, k, d, case.clone(), 0)).collect()),
         Some("try_new") => {
             let l = case["len"].as_u64().ok_or("len")? as usize;
             Ok(check_try_new(l).into_iter().map(|(c, k, d)| Violation::new(c, k, d, case.clone(), 0)).collect())
